@@ -440,3 +440,221 @@ Qed.
 
 Lemma invD_run cf tr : InvD (run cf tr).
 Proof. unfold run. apply run_from_inv; [intros s a; apply invD_step|exact invD_init]. Qed.
+
+(* ------------- invariant L (cf_follow = false): one live slot per link *)
+
+Definition InvLP (u su : list entry) (ns : N) (rq : list cmd) (lk : N -> lstate) : Prop :=
+  (forall e1 e2, In e1 (u ++ su) -> In e2 (u ++ su) -> fst e1 = fst e2 -> e1 = e2) /\
+  (forall e, In e (u ++ su) -> fst e < ns) /\
+  (forall e1 e2, In e1 (u ++ su) -> In e2 (u ++ su) -> snd e1 = snd e2 -> e1 = e2) /\
+  (forall x l, In (x, l) (u ++ su) -> (exists b, lk l = LConn x b) \/ In (CUnsub x) rq) /\
+  (forall l x b, lk l = LConn x b -> x < ns) /\
+  (forall l, In (CSub l) rq -> lk l = LPending) /\
+  (forall pre post l, rq = pre ++ CSub l :: post -> ~ In (CSub l) post) /\
+  (forall pre post l, rq = pre ++ CSub l :: post -> forall x, In (x, l) (u ++ su) -> In (CUnsub x) pre).
+
+Definition InvL (s : st) : Prop := InvLP (upd s) (sus s) (nslot s) (rootq s) (links s).
+
+Lemma app_single_split {A} (rq : list A) c pre x post :
+  rq ++ [c] = pre ++ x :: post ->
+  (exists post', post = post' ++ [c] /\ rq = pre ++ x :: post') \/ (post = [] /\ pre = rq /\ x = c).
+Proof.
+  destruct post as [|y post0] using rev_ind.
+  - intros H. right. apply app_inj_tail in H. destruct H as [-> ->]. auto.
+  - clear IHpost0. intros H. left. exists post0.
+    replace (pre ++ x :: post0 ++ [y]) with ((pre ++ x :: post0) ++ [y]) in H
+      by (rewrite <- app_assoc; reflexivity).
+    apply app_inj_tail in H. destruct H as [-> ->]. auto.
+Qed.
+
+Definition misc_cmd (c : cmd) : bool :=
+  match c with CSub _ | CUnsub _ => false | _ => true end.
+
+Lemma invL_push_misc u su ns rq lk c : misc_cmd c = true ->
+  InvLP u su ns rq lk -> InvLP u su ns (rq ++ [c]) lk.
+Proof.
+  intros Hc (K1 & K2 & K3 & L2 & L3 & Q1 & Q2 & Q3). repeat split; try assumption.
+  - intros x l Hin. destruct (L2 x l Hin) as [?|?]; [left; assumption|right; apply in_or_app; left; assumption].
+  - intros l Hin. apply in_app_or in Hin. destruct Hin as [Hin|[E0|[]]]; [apply Q1, Hin|subst c; discriminate Hc].
+  - intros pre post l E. destruct (app_single_split _ _ _ _ _ E) as [(post' & -> & E')|(_ & _ & <-)]; [|discriminate Hc].
+    intros Hin. apply in_app_or in Hin. destruct Hin as [Hin|[E0|[]]]; [exact (Q2 _ _ _ E' Hin)|subst c; discriminate Hc].
+  - intros pre post l E. destruct (app_single_split _ _ _ _ _ E) as [(post' & -> & E')|(_ & _ & <-)]; [|discriminate Hc].
+    exact (Q3 _ _ _ E').
+Qed.
+
+Lemma invL_relabel u su ns rq lk l x b0 b : lk l = LConn x b0 ->
+  InvLP u su ns rq lk -> InvLP u su ns rq (fupd lk l (LConn x b)).
+Proof.
+  intros Hl (K1 & K2 & K3 & L2 & L3 & Q1 & Q2 & Q3). repeat split; try assumption.
+  - intros x' l' Hin. destruct (L2 x' l' Hin) as [[b' Hb]|?]; [left|right; assumption].
+    destruct (N.eq_dec l' l) as [->|Hn]; [|rewrite fupd_neq by exact Hn; eauto].
+    rewrite fupd_eq. rewrite Hl in Hb. inversion Hb; subst. eauto.
+  - intros l' x' b'. destruct (N.eq_dec l' l) as [->|Hn].
+    + rewrite fupd_eq. intros E. inversion E; subst. eapply L3, Hl.
+    + rewrite fupd_neq by exact Hn. apply L3.
+  - intros l' Hin. destruct (N.eq_dec l' l) as [->|Hn]; [|rewrite fupd_neq by exact Hn; apply Q1, Hin].
+    rewrite (Q1 l Hin) in Hl. discriminate.
+Qed.
+
+Lemma invL_send_sub u su ns rq lk l : lk l = LIdle ->
+  InvLP u su ns rq lk -> InvLP u su ns (rq ++ [CSub l]) (fupd lk l LPending).
+Proof.
+  intros Hl (K1 & K2 & K3 & L2 & L3 & Q1 & Q2 & Q3).
+  assert (Hnot : ~ In (CSub l) rq) by (intros Hin; rewrite (Q1 l Hin) in Hl; discriminate).
+  repeat split; try assumption.
+  - intros x l' Hin. destruct (L2 x l' Hin) as [[b Hb]|?]; [left|right; apply in_or_app; left; assumption].
+    exists b. rewrite fupd_neq; [exact Hb|]. intros ->. rewrite Hl in Hb. discriminate.
+  - intros l' x b. destruct (N.eq_dec l' l) as [->|Hn]; [rewrite fupd_eq; discriminate|].
+    rewrite fupd_neq by exact Hn. apply L3.
+  - intros l' Hin. apply in_app_or in Hin. destruct Hin as [Hin|[E|[]]].
+    + rewrite fupd_neq; [apply Q1, Hin|]. intros ->. contradiction.
+    + inversion E; subst. apply fupd_eq.
+  - intros pre post l' E. destruct (app_single_split _ _ _ _ _ E) as [(post' & -> & E')|(-> & _ & _)]; [|intros []].
+    intros Hin. apply in_app_or in Hin. destruct Hin as [Hin|[E2|[]]]; [exact (Q2 _ _ _ E' Hin)|].
+    inversion E2; subst. apply Hnot. apply in_or_app. right. left. reflexivity.
+  - intros pre post l' E. destruct (app_single_split _ _ _ _ _ E) as [(post' & -> & E')|(-> & -> & E2)].
+    + exact (Q3 _ _ _ E').
+    + inversion E2; subst. intros x Hin. destruct (L2 x l Hin) as [[b Hb]|?]; [|assumption].
+      rewrite Hl in Hb. discriminate.
+Qed.
+
+Lemma invL_send_unsub u su ns rq lk l x b : lk l = LConn x b ->
+  InvLP u su ns rq lk -> InvLP u su ns (rq ++ [CUnsub x]) (fupd lk l LIdle).
+Proof.
+  intros Hl (K1 & K2 & K3 & L2 & L3 & Q1 & Q2 & Q3). repeat split; try assumption.
+  - intros x' l' Hin. destruct (L2 x' l' Hin) as [[b' Hb]|?]; [|right; apply in_or_app; left; assumption].
+    destruct (N.eq_dec l' l) as [->|Hn].
+    + right. rewrite Hl in Hb. inversion Hb; subst. apply in_or_app. right. left. reflexivity.
+    + left. exists b'. rewrite fupd_neq by exact Hn. exact Hb.
+  - intros l' x' b'. destruct (N.eq_dec l' l) as [->|Hn]; [rewrite fupd_eq; discriminate|].
+    rewrite fupd_neq by exact Hn. apply L3.
+  - intros l' Hin. apply in_app_or in Hin. destruct Hin as [Hin|[E|[]]]; [|discriminate E].
+    rewrite fupd_neq; [apply Q1, Hin|]. intros ->. rewrite (Q1 l Hin) in Hl. discriminate.
+  - intros pre post l' E. destruct (app_single_split _ _ _ _ _ E) as [(post' & -> & E')|(_ & _ & E2)]; [|discriminate E2].
+    intros Hin. apply in_app_or in Hin. destruct Hin as [Hin|[E2|[]]]; [exact (Q2 _ _ _ E' Hin)|discriminate E2].
+  - intros pre post l' E. destruct (app_single_split _ _ _ _ _ E) as [(post' & -> & E')|(_ & _ & E2)]; [|discriminate E2].
+    exact (Q3 _ _ _ E').
+Qed.
+
+(* members of the maps after the root handled a command come from before *)
+Lemma invL_pop_subset u su ns c q lk u' su' :
+  (forall e, In e (u' ++ su') -> In e (u ++ su)) ->
+  (forall x, c = CUnsub x -> forall e, In e (u' ++ su') -> fst e <> x) ->
+  (forall l, c <> CSub l) ->
+  InvLP u su ns (c :: q) lk -> InvLP u' su' ns q lk.
+Proof.
+  intros Hsub Hun Hns (K1 & K2 & K3 & L2 & L3 & Q1 & Q2 & Q3). repeat split.
+  - intros e1 e2 H1 H2. apply K1; auto.
+  - intros e He. apply K2; auto.
+  - intros e1 e2 H1 H2. apply K3; auto.
+  - intros x l Hin. destruct (L2 x l (Hsub _ Hin)) as [?|[E|?]]; [left; assumption| |right; assumption].
+    exfalso. exact (Hun x E _ Hin eq_refl).
+  - exact L3.
+  - intros l Hin. apply Q1. right. exact Hin.
+  - intros pre post l E. apply (Q2 (c :: pre) post l). rewrite E. reflexivity.
+  - intros pre post l E x Hin.
+    assert (H : In (CUnsub x) (c :: pre)) by (apply (Q3 (c :: pre) post l); [rewrite E; reflexivity|apply Hsub, Hin]).
+    destruct H as [E2|H]; [|exact H]. exfalso. exact (Hun x E2 _ Hin eq_refl).
+Qed.
+
+Lemma invL_pop_sub u su ns l q lk :
+  InvLP u su ns (CSub l :: q) lk ->
+  InvLP (m_ins (ns, l) u) su (ns + 1) q (fupd lk l (LConn ns false)).
+Proof.
+  intros (K1 & K2 & K3 & L2 & L3 & Q1 & Q2 & Q3).
+  assert (Hfree : forall x, ~ In (x, l) (u ++ su)).
+  { intros x Hin. exact (Q3 [] q l eq_refl x Hin). }
+  assert (Hnq : ~ In (CSub l) q) by exact (Q2 [] q l eq_refl).
+  assert (Hmem : forall e, In e (m_ins (ns, l) u ++ su) -> (In e (u ++ su) /\ fst e <> ns) \/ e = (ns, l)).
+  { intros e He. apply in_app_or in He. destruct He as [He|He].
+    - apply In_m_ins in He. destruct He as [[He Hk]|He]; [left; split; [apply in_or_app; left; exact He|exact Hk]|right; exact He].
+    - left. split; [apply in_or_app; right; exact He|]. intros E.
+      assert (fst e < ns) by (apply K2, in_or_app; right; exact He). lia. }
+  repeat split.
+  - intros e1 e2 H1 H2 E. destruct (Hmem _ H1) as [[H1' N1]| ->]; destruct (Hmem _ H2) as [[H2' N2]| ->]; cbn in *; auto; congruence.
+  - intros e He. destruct (Hmem _ He) as [[He' _]| ->]; [specialize (K2 _ He'); lia|cbn; lia].
+  - intros e1 e2 H1 H2 E. destruct (Hmem _ H1) as [[H1' N1]| ->]; destruct (Hmem _ H2) as [[H2' N2]| ->]; cbn in *; auto.
+    + destruct e1 as [x1 l1]. cbn in E. subst. exfalso. exact (Hfree _ H1').
+    + destruct e2 as [x2 l2]. cbn in E. subst. exfalso. exact (Hfree _ H2').
+  - intros x l' Hin. destruct (Hmem _ Hin) as [[Hin' _]|E].
+    + assert (l' <> l) by (intros ->; exact (Hfree _ Hin')).
+      destruct (L2 x l' Hin') as [[b Hb]|[E|?]]; [left; exists b; rewrite fupd_neq by assumption; exact Hb|discriminate E|right; assumption].
+    + inversion E; subst. left. exists false. apply fupd_eq.
+  - intros l' x b. destruct (N.eq_dec l' l) as [->|Hn].
+    + rewrite fupd_eq. intros E. inversion E; subst. lia.
+    + rewrite fupd_neq by exact Hn. intros E. specialize (L3 _ _ _ E). lia.
+  - intros l' Hin. rewrite fupd_neq; [apply Q1; right; exact Hin|]. intros ->. contradiction.
+  - intros pre post l' E. apply (Q2 (CSub l :: pre) post l'). rewrite E. reflexivity.
+  - intros pre post l' E x Hin.
+    assert (l' <> l) by (intros ->; apply Hnq; rewrite E; apply in_or_app; right; left; reflexivity).
+    destruct (Hmem _ Hin) as [[Hin' _]|E2]; [|inversion E2; subst; contradiction].
+    assert (H1 : In (CUnsub x) (CSub l :: pre)) by (apply (Q3 (CSub l :: pre) post l'); [rewrite E; reflexivity|exact Hin']).
+    destruct H1 as [E2|H1]; [discriminate E2|exact H1].
+Qed.
+
+Lemma invL_root_handle s c q : rootq s = c :: q -> InvL s -> InvL (root_handle (set_rootq q s) c).
+Proof.
+  unfold InvL. intros E H. des_st s. cbn in *. subst rq.
+  destruct c as [l|x|x [|]|c|c|]; cbn.
+  - apply invL_pop_sub, H.
+  - eapply invL_pop_subset; [| | |exact H].
+    + intros e He. apply in_app_or in He. apply in_or_app.
+      destruct He as [He|He]; apply In_m_del in He; tauto.
+    + intros y E e He. inversion E; subst. apply in_app_or in He.
+      destruct He as [He|He]; apply In_m_del in He; tauto.
+    + discriminate.
+  - destruct (m_find x u) as [e|] eqn:Ef; cbn.
+    + apply m_find_some in Ef. eapply invL_pop_subset; [| | |exact H]; try discriminate.
+      intros e' He. apply in_app_or in He. apply in_or_app. destruct He as [He|He].
+      * apply In_m_del in He. tauto.
+      * apply In_m_ins in He. destruct He as [[? _]| ->]; [right; assumption|left; tauto].
+    + eapply invL_pop_subset; [| | |exact H]; try discriminate. auto.
+  - destruct (m_find x su) as [e|] eqn:Ef; cbn.
+    + apply m_find_some in Ef. eapply invL_pop_subset; [| | |exact H]; try discriminate.
+      intros e' He. apply in_app_or in He. apply in_or_app. destruct He as [He|He].
+      * apply In_m_ins in He. destruct He as [[? _]| ->]; [left; assumption|right; tauto].
+      * apply In_m_del in He. tauto.
+    + eapply invL_pop_subset; [| | |exact H]; try discriminate. auto.
+  - eapply invL_pop_subset; [| | |exact H]; try discriminate. auto.
+  - eapply invL_pop_subset; [| | |exact H]; try discriminate. auto.
+  - eapply invL_pop_subset; [| | |exact H]; try discriminate. auto.
+Qed.
+
+Lemma invL_step cf s a : cf_follow cf = false -> InvL s -> InvL (step cf s a).
+Proof.
+  intros Hcf H. destruct a; cbn [step].
+  - destruct (links s l) eqn:El; try exact H. destruct (root_dropped s); [exact H|].
+    unfold InvL in *. des_st s; cbn in *. apply invL_send_sub; assumption.
+  - destruct (links s l) as [| |x b0] eqn:El; try exact H.
+    assert (H' : InvL (set_rootq (rootq s ++ [CUnsub x]) (set_links (fupd (links s) l LIdle) s))).
+    { unfold InvL in *. des_st s; cbn in *. eapply invL_send_unsub; eassumption. }
+    destruct (is_direct l); [exact H'|]. unfold InvL in *. des_st s; cbn in *. exact H'.
+  - destruct (links s l) as [| |x b0] eqn:El; try exact H. destruct (Bool.eqb b b0); [exact H|].
+    unfold InvL in *. des_st s; cbn in *. apply invL_push_misc; [reflexivity|].
+    eapply invL_relabel; eassumption.
+  - destruct (links s l) as [| |x b0]; try exact H. destruct (is_direct l); [exact H|].
+    destruct (ch_q (chans s x)) as [|[p n] q]; [exact H|]. unfold InvL in *. des_st s; cbn in *. exact H.
+  - unfold InvL in *. des_st s; cbn in *. apply invL_push_misc; [reflexivity|exact H].
+  - destruct (root_term s || root_dropped s); [exact H|].
+    destruct (rootq s) as [|c q] eqn:E; [exact H|]. apply invL_root_handle; assumption.
+  - destruct (pub_idle s 0); [|exact H]. unfold InvL in *. des_st s; cbn in *. exact H.
+  - unfold InvL in *. des_st s; cbn in *. apply invL_push_misc; [reflexivity|exact H].
+  - destruct (c_alive (clones s c) && negb (c_term (clones s c))); [|exact H].
+    destruct (c_q (clones s c)) as [|x q].
+    + destruct (root_dropped s); [|exact H]. unfold InvL in *. des_st s; cbn in *. exact H.
+    + destruct x as [e|y|]; cbn [clone_handle]; rewrite ?Hcf; unfold InvL in *; des_st s; cbn in *; exact H.
+  - destruct (c_alive (clones s c) && pub_idle s c && negb (c =? 0)); [|exact H].
+    unfold InvL in *. des_st s; cbn in *. apply invL_push_misc; [reflexivity|exact H].
+  - destruct (pubs s p) as [n|n snap rest sent]; [destruct (pub_alive s p)|]; try exact H.
+  - destruct (pubs s p) as [n|n snap [|[y l] rest] sent]; try exact H.
+    destruct (is_direct l); [exact H|].
+    destruct (negb (ch_rx (chans s y))); [exact H|].
+    destruct (N.of_nat (length (ch_q (chans s y))) <? cf_cap cf); exact H.
+  - destruct (pubs s p) as [n|n snap [|e rest] sent]; exact H.
+Qed.
+
+Lemma invL_init : InvL init.
+Proof.
+  unfold InvL, InvLP. cbn. repeat split; intros; try contradiction; try discriminate;
+    match goal with E : [] = ?pre ++ _ :: _ |- _ => destruct pre; discriminate E end.
+Qed.
